@@ -5,7 +5,7 @@ from . import auto
 
 PROP = 'C16'
 PREDICATE = 'C16'
-LEAN_TARGETS = ['LLTD.Props.C16']
+LEAN_TARGETS = ['LLTD.Props.C16', 'LLTD.Props.C16T']
 VARIANT = 'plain'
 RULE = ('seeded random sequences (length 20..200) of add / find / remove / complete / clear / status update / dump / expiry tick / '
         'clock advance (0..200 s incl. 59/60/61) over 24 keys (8 near-colliding addresses x 3 generations) so that the full-table '
